@@ -190,7 +190,9 @@ where
     F: DataType + Float,
 {
     fn from(value: u8) -> Self {
-        Val::Int(I::from(value).unwrap())
+        // float, since the neutral elements are used for derivatives where
+        // integer arithmetic, e.g., integer division, is not intended
+        Val::Float(F::from(value).unwrap())
     }
 }
 
